@@ -1,13 +1,18 @@
 import WuffsVerif.Common.Line
 import WuffsVerif.Model.Liveness
 import WuffsVerif.Model.Scratch
+import WuffsVerif.Model.SplitExpr
 /-! Line driver for C05.  Ops:
   live <nvars> <abstract body tokens…>   -> r [i,j,…]   (sorted resumable variable indexes)
 The body grammar is the one written by /repo/internal/cgen/verif_export_c05.go.
   prog <ops> <accreg> <src sizes|-> <dst sizes|-> <hex>  -> st=… out=… ri=… acc=… susp=…
     ops: `;`-separated  rd:<size>:<n>:<b|l>:<dst>  skip:<reg>  skip1  wr:<add|xor|fst>:<a>:<b>
+  case <name> <nvars> <status names,…> | <tagged abstract body> | <tag> <description> ; …   -> defined
+    (a coroutine as verif_export_c05.go describes it; it stays current until the next `case`)
+  split <src sizes|-> <dst sizes|-> <hex>   -> st=… out=… ri=… acc=… g1=… susp=…
+    (the current coroutine run by Model/SplitRun.lean under that chunking, saving only `resumables`)
 -/
-open WuffsVerif WuffsVerif.Line WuffsVerif.Liveness WuffsVerif.Scratch
+open WuffsVerif WuffsVerif.Line WuffsVerif.Liveness WuffsVerif.Scratch WuffsVerif.Split
 
 namespace C05Parse
 
@@ -20,15 +25,26 @@ def parseNats : Toks → List Nat → Option (List Nat × Toks)
     | none => none
   | [], _ => none
 
-/-- `( E n|c|ci i* )` -/
+/-- optional `t<k>` -/
+def parseTag : Toks → Nat × Toks
+  | t :: rest =>
+    if t.startsWith "t" then
+      match (t.drop 1).toString.toNat? with
+      | some k => (k, rest)
+      | none => (0, t :: rest)
+    else (0, t :: rest)
+  | [] => (0, [])
+
+/-- `( E n|c|ci [t<tag>] i* )` -/
 def parseEx : Toks → Option (Ex × Toks)
   | "(" :: "E" :: fl :: rest =>
+    let (tag, rest) := parseTag rest
     match parseNats rest [] with
     | some (vs, rest) =>
       match fl with
-      | "n" => some (⟨false, false, vs, 0⟩, rest)
-      | "c" => some (⟨true, false, vs, 0⟩, rest)
-      | "ci" => some (⟨true, true, vs, 0⟩, rest)
+      | "n" => some (⟨false, false, vs, tag⟩, rest)
+      | "c" => some (⟨true, false, vs, tag⟩, rest)
+      | "ci" => some (⟨true, true, vs, tag⟩, rest)
       | _ => none
     | none => none
   | _ => none
@@ -106,6 +122,74 @@ partial def parseBlock : Toks → Option (List Stmt × Toks)
   | _ => none
 end
 
+def parseBOp : String → Option BOp
+  | "add" => some .add | "sub" => some .sub | "mul" => some .mul
+  | "madd" => some .madd | "msub" => some .msub | "mmul" => some .mmul | "mshl" => some .mshl
+  | "shl" => some .shl | "shr" => some .shr | "and" => some .band | "or" => some .bor | "xor" => some .bxor
+  | "lt" => some .lt | "le" => some .le | "gt" => some .gt | "ge" => some .ge
+  | "eq" => some .eq | "ne" => some .ne | "land" => some .land | "lor" => some .lor
+  | _ => none
+
+/-- `k<n> | v<i> | f<i> | ( <bop> <w> e e )` -/
+partial def parseWExpr : Toks → Option (WExpr × Toks)
+  | "(" :: op :: w :: rest => do
+    let op ← parseBOp op
+    let w ← w.toNat?
+    let (a, rest) ← parseWExpr rest
+    let (b, rest) ← parseWExpr rest
+    match rest with
+    | ")" :: rest => some (.bin op w a b, rest)
+    | _ => none
+  | t :: rest =>
+    match (t.drop 1).toString.toNat? with
+    | some k =>
+      if t.startsWith "k" then some (.const k, rest)
+      else if t.startsWith "v" then some (.var k, rest)
+      else if t.startsWith "f" then some (.field k, rest)
+      else none
+    | none => none
+  | [] => none
+
+/-- one description, without its tag: the description, or the operator of an `op=` -/
+def parseDesc : Toks → Option (Sum OpDesc (BOp × Nat))
+  | "P" :: rest => match parseWExpr rest with | some (e, []) => some (.inl (.pure e)) | _ => none
+  | ["M", op, w] => do let op ← parseBOp op; let w ← w.toNat?; pure (.inr (op, w))
+  | ["F", i, op, w] => do
+    let i ← i.toNat?
+    let w ← w.toNat?
+    if op == "set" then pure (.inl (.store i none w))
+    else do let op ← parseBOp op; pure (.inl (.store i (some op) w))
+  | ["R", size, n, e] => do
+    let size ← size.toNat?; let n ← n.toNat?
+    let be ← match e with | "b" => some true | "l" => some false | _ => none
+    pure (.inl (.rd ⟨size, n, be⟩))
+  | "K" :: rest => match parseWExpr rest with | some (e, []) => some (.inl (.skip e)) | _ => none
+  | ["K1"] => some (.inl .skip1)
+  | "W" :: rest => match parseWExpr rest with | some (e, []) => some (.inl (.wr e)) | _ => none
+  | ["YR"] => some (.inl .yieldSR)
+  | ["YW"] => some (.inl .yieldSW)
+  | _ => none
+
+/-- split a token list at every `sep` -/
+def splitToks (sep : String) (ts : Toks) : List Toks :=
+  let r := ts.foldr (fun t (acc : Toks × List Toks) => if t == sep then ([], acc.1 :: acc.2) else (t :: acc.1, acc.2)) ([], [])
+  r.1 :: r.2
+
+def parseProg (nvars : Nat) (statuses : String) (bodyT descT : Toks) : Option SProg := do
+  let (body, rest) ← parseBlock bodyT
+  if rest ≠ [] then none
+  let mut ops : List (Nat × OpDesc) := []
+  let mut combs : List (Nat × BOp × Nat) := []
+  for d in splitToks ";" descT do
+    match d with
+    | [] => pure ()
+    | tag :: rest =>
+      let tag ← tag.toNat?
+      match ← parseDesc rest with
+      | .inl o => ops := (tag, o) :: ops
+      | .inr c => combs := (tag, c) :: combs
+  pure ⟨nvars, body, ops, combs, statuses.splitOn ","⟩
+
 end C05Parse
 
 def parseSizes (s : String) : Option (List Nat) :=
@@ -141,4 +225,24 @@ def c05Step (l : List String) : String :=
     | _, _ => "bad-op"
   | _ => "bad-op"
 
-def main : IO Unit := runPure c05Step
+/-- the current coroutine and its resumable variables -/
+abbrev C05State := Option (SProg × List Nat)
+
+def c05Stateful (st : C05State) (l : List String) : C05State × String :=
+  match l with
+  | "case" :: _name :: n :: statuses :: "|" :: rest =>
+    match n.toNat?, C05Parse.splitToks "|" rest with
+    | some n, [bodyT, descT] =>
+      match C05Parse.parseProg n statuses bodyT descT with
+      | some p => (some (p, resumables n p.body), "defined")
+      | none => (none, "bad-op")
+    | _, _ => (none, "bad-op")
+  | ["split", ss, ds, hex] =>
+    match st, parseSizes ss, parseSizes ds, fromHex hex with
+    | some (p, rs), some ss, some ds, some bs =>
+      let o := p.runChunked rs ss ds bs
+      (st, s!"st={o.status} out={toHex o.out} ri={o.consumed} acc={o.acc} g1={o.g1} susp={o.susp}")
+    | _, _, _, _ => (st, "bad-op")
+  | l => (st, c05Step l)
+
+def main : IO Unit := run (none : C05State) c05Stateful
